@@ -19,7 +19,7 @@ is a plain deterministic interpretation.  Anything the engine cannot interpret e
 raises Unsupported, which the checks turn into "analysis broken" (exit 2) - never a guess.
 """
 import re
-from facts import AnalysisBroken, children
+from facts import AnalysisBroken, children, unwrap
 
 MASK64 = (1 << 64) - 1
 
@@ -913,6 +913,18 @@ class Interp:
                 r = self.castval(r, lq)
             self.assign(o, p, r, None)
             return r
+        if op == '-' and unwrap(R).get('kind') == 'OffsetOfExpr':
+            # container_of idiom: (T *)((char *)&x->field - offsetof(T, field)); the dump carries no field name, so the
+            # only form accepted is a pointer whose path ends in a named field, which is stripped
+            inner = L
+            while inner.get('kind') in ('CStyleCastExpr', 'ImplicitCastExpr', 'ParenExpr') and inner.get('inner'):
+                if inner.get('kind') == 'ImplicitCastExpr' and inner.get('castKind') == 'LValueToRValue':
+                    break
+                inner = inner['inner'][0]
+            a = self.ev(inner, env)
+            if isinstance(a, Ptr) and a.path and isinstance(a.path[-1], str):
+                return Ptr(a.obj, a.path[:-1])
+            raise Unsupported('offsetof arithmetic on %r at %s' % (a, self.where(e)))
         a = self.ev(L, env)
         b = self.ev(R, env)
         return self.arith(op, a, b, q, e)
